@@ -72,3 +72,33 @@ def emit_chain_loops(R):
         fns.append({"name": "TasmanianSparseGrid::%s (chain-rule scaling loop)" % nm, "file": p.rel, "line": line, "loops": 2})
     R.require({"R13-fp-mul": 2})
     return "\n".join(outs) + "\n", {"functions": fns, "rules_fired": {k: v for k, v in R.counts.items() if v}}
+
+
+HPP = "SparseGrids/TasmanianSparseGrid.hpp"
+def emit_domain_inside(R):
+    """TasmanianSparseGrid::getDomainInside(): the returned predicate applied to a point.  Rule R7b (a returned lambda is applied at once): every
+    `return [captures](std::vector<double> const &x)->bool{ BODY };` becomes `{ BODY }`; captures by copy read the members at creation time, which is the
+    state at the call here."""
+    text = X.strip_comments(X.read_source(HPP))
+    (p,) = X.cut(HPP, r'DomainInsideSignature\s+getDomainInside\s*\(\s*\)\s*const', text)
+    b = p.body
+    n = [0]
+    def inline(m):
+        n[0] += 1
+        return "{"
+    b2 = re.sub(r'return\s*\[[=&]?\]\s*\(\s*std::vector<double>\s+const\s*&\s*(?:x)?\s*\)\s*->\s*bool\s*\{', inline, b)
+    R.counts["R7b-apply-returned-lambda"] = n[0]
+    b = re.sub(r'\}\s*;', '}', b2)     # the closing `};` of the inlined lambdas
+    b = R.sub("R3-auto", r'\bauto\s+rule\s*=\s*getRule\(\)\s*;', 'TypeOneDRule rule = self->rule;', b)
+    b = R.sub("R1-qualifier", r'\bTasGrid::', '', b)
+    b = R.sub("R6-range-for", r'for\s*\(\s*auto\s+const\s*&\s*v\s*:\s*x\s*\)', 'for (size_t v_ = 0; v_ < x_size; v_++)', b)
+    b = R.sub("R6-range-var", r'(?<![\w.>])v(?![\w(])', 'x[v_]', b)
+    b = R.sub("R10-member", r'(?<![\w.>])domain_transform_a\.empty\(\)', '(self->domain_transform_a_size == 0)', b)
+    b = R.sub("R10-member", r'(?<![\w.>])domain_transform_(a|b)\b', r'self->domain_transform_\1', b)
+    b = R.sub("R10-member-call", r'(?<![\w.>])getNumDimensions\(\)', 'self->dims', b)
+    b = R.sub("R10-member-call", r'(?<![\w.>])isFourier\(\)', '(self->rule == rule_fourier)', b)
+    X.check_leftover(b, "getDomainInside")
+    R.require({"R7b-apply-returned-lambda": 4, "R10-member": 4})
+    info = {"functions": [{"name": "TasmanianSparseGrid::getDomainInside (predicate applied to a point)", "file": p.rel, "line": p.line, "loops": X.count_loops(b)}], "rules_fired": {k: v for k, v in R.counts.items() if v},
+            "fidelity": X.fidelity(p.body, b, extra_vocab=["auto", "rule", "getRule", "TasGrid", "return", "std", "vector", "double", "const", "x", "v", "bool", "domain_transform_a", "domain_transform_b", "empty", "getNumDimensions", "isFourier", "dims", "size_t", "[", "]", "=", "&", "->", "(", ")", "{", "}", ";", ":"], slack=40)}
+    return '#line %d "%s"\nbool getDomainInside_apply(const TSGT *self, const double *x, size_t x_size)%s\n' % (p.line, X.REPO + "/" + p.rel, b), info
